@@ -89,6 +89,8 @@ def prog_line(op, p):
     if p['route'] == 'param':
         tbl.append(('R%d' % core.NAMES.id('cb'), core.sig_line(core.D(p['callees'][0], fn=10))))
     pm = 'A(M%d.%d)' % (core.NAMES.id('functools'), core.NAMES.id('partial'))
+    if op == 'pautoh':
+        op = 'pautoh %s %s' % (core.names_line(p['hintP']), core.names_line(p['hintW']))
     if op == 'pauto' and p['route'] == 'self':
         op = 'pautom'             # retrieved through an instance: autoforwards_method
     elif op == 'pauto' and p['route'] == 'param':
@@ -173,7 +175,27 @@ def real_pauto(req):
         progs.unload(fname)
 
 
-OPS.update({'render': real_render, 'pvisit': real_pvisit, 'ptruth': real_ptruth, 'pauto': real_pauto})
+def real_pautoh(req):
+    """the wrapper decorated with modifiers.posoargs(*P) / kwoargs(*W) (one translator with both selections)"""
+    p = req[1]
+    # one translator carrying both selections (what stacking kwoargs and posoargs merges into)
+    decs = ['@functools.partial(modifiers._PokTranslator, posoargs=%r, kwoargs=%r)' % (tuple(p['hintP']), tuple(p['hintW']))]
+    try:
+        mod, fname = load_prog(p, decorators=tuple(decs))
+    except ValueError as e:
+        return core.canon_exc(e)          # inadmissible selection: ValueError at decoration time
+    try:
+        tr = mod.target
+        core.register_callable(tr, 1)      # the translator stands for the function in the provenance
+        f = getattr(tr, 'func', None)
+        if f is not None:
+            core.register_callable(f, 1)
+        return core.run_real(sigtools.signature, tr)
+    finally:
+        progs.unload(fname)
+
+
+OPS.update({'render': real_render, 'pvisit': real_pvisit, 'ptruth': real_ptruth, 'pauto': real_pauto, 'pautoh': real_pautoh})
 
 
 # ----------------------------------------------------------------------------- runtime-only: execution, declaration, variants
